@@ -481,8 +481,19 @@ impl InflightRequests {
     }
 
     fn find_by_tid(&self, tid: u32) -> Result<usize, usize> {
-        self.requests
-            .binary_search_by(|request| request.tid.cmp(&tid))
+        // Transaction ids are sequential and wrap around after u32::MAX, so compare them
+        // relative to the oldest outstanding request, otherwise the list stops being sorted
+        // at the wrap around and responses to outstanding requests are not found.
+        let Some(oldest) = self.requests.first().map(|request| request.tid) else {
+            return Err(0);
+        };
+
+        self.requests.binary_search_by(|request| {
+            request
+                .tid
+                .wrapping_sub(oldest)
+                .cmp(&tid.wrapping_sub(oldest))
+        })
     }
 
     /// Removes timeedout requests if necessary to save memory
